@@ -1037,7 +1037,10 @@ fn mode_run(args: &[String]) -> i32 {
         }
         let _ = std::fs::remove_file(format!("{}.tmp", path));
         println!("simhist: violation in episode {}: {}", ep, viol);
-        violation_lines.push(format!("VIOLATION property=C10 replay={}", path));
+        violation_lines.push(format!(
+            "VIOLATION-JSON {}",
+            json!({"property": "C10", "replay": path, "class": class, "signature": format!("{}|{}", class, viol["key"].as_str().unwrap_or("")), "episode": ep})
+        ));
     }
 
     // ---- evidence -------------------------------------------------------------------
